@@ -252,6 +252,18 @@ def hMisc (j : Json) : D Json := do
     ("gap_to_tpf", jstr (tpfGapTypeToText n)), ("gap_from_tpf", jstr (tpfGapTypeOfText n))]) names)
 
 
+def hNamer (j : Json) : D Json := do
+  let name ← getS j "name"
+  let rows ← (← getA j "rows").mapM decRow
+  let perms ← getA j "tag_orders"
+  let out ← perms.mapM (fun pj => do
+    let tags ← (← pj.getArr?).toList.mapM (fun v => do let s ← v.getStr?; pure s.toList)
+    let n0 : Namer := { autosomePrefix := "SUPER_".toList }
+    pure (encR (fun (n : Namer) => Json.mkObj [("name", jopt jstr n.currentScaffoldName), ("rank", jint n.currentRank),
+      ("haplotype", jopt jstr n.currentHaplotype), ("target", Json.bool n.targetTags), ("primary", jopt jstr n.primaryHaplotype),
+      ("lc", jarr (fun (p : Str × Str) => Json.arr #[jstr p.1, jstr p.2]) n.haplotypeLc)]) (makeScaffoldName n0 name rows tags)))
+  pure (Json.mkObj [("fragment_tags", jarr jstr ({ name := name, rows := rows } : Scaffold).fragmentTags), ("results", Json.arr out.toArray)])
+
 def encFileV (f : Cache.FileV) : Json := Json.arr #[jnat f.src, jnat f.written, jnat f.total, jnat f.mtime]
 
 def encPC : Cache.PC → Json
@@ -323,6 +335,7 @@ def dispatch (j : Json) : D Json := do
   | "isspace" => hIsSpace j
   | "pyint" => hPyInt j
   | "misc" => hMisc j
+  | "namer" => hNamer j
   | "cache" => hCache j
   | "outputs" => hOutputs j
   | k => throw s!"unknown kind {k}"
